@@ -47,6 +47,7 @@ def run_batch(ctx, items, race=False, tag="b"):
     res, rc, err = levelb.run_probe(exe, scripts, env=ENV)
     byname = {r.get("c"): r.get("results") for r in res if isinstance(r, dict)}
     for r in out:
+        r["probe_rc"], r["probe_stderr"] = rc, err[-4000:]
         if r["accepted"]:
             r["impl"] = byname.get(r["name"])
             if r["impl"] is None:
